@@ -359,6 +359,9 @@ def run_check(prop, spec, tier, verif_seed, workers=None):
     recheck_every = int(tp.get('recheck_every', 97))
     deadline = t0 + wall_cap
     chunk = max(1, min(int(tp.get('chunk', 500)), (units + workers * 4 - 1) // (workers * 4)))
+    stop_early = bool(os.environ.get('TXSIM_STOP_ON_VIOLATION'))    # (for re-running seeded changes: the first unlisted violation is enough)
+    if stop_early:
+        chunk = max(1, min(chunk, (units + workers * 24 - 1) // (workers * 24)))
     jobs = [(prop, spec, params, verif_seed, lo, min(units, lo + chunk), recheck_every, deadline)
             for lo in range(0, units, chunk)]
     agg = dict(runs=0, units=0, steps=0, sim_time=0.0, probes={}, faults={}, fps=set(), nontrivial=0,
@@ -370,6 +373,8 @@ def run_check(prop, spec, tier, verif_seed, workers=None):
         futs = [pool.submit(_worker, j) for j in jobs]
         try:
             for fut in as_completed(futs, timeout=wall_cap + 120):
+                if fut.cancelled():
+                    continue
                 try:
                     r = fut.result()
                 except Exception as e:      # dead worker
@@ -391,6 +396,9 @@ def run_check(prop, spec, tier, verif_seed, workers=None):
                     agg['samples'].extend(r['samples'][:1])
                 if r['done'] < r['hi']:
                     incomplete += r['hi'] - r['done']
+                if stop_early and any(known.lookup(prop, v['sig']) is None for v in r['violations']):
+                    for f in futs:
+                        f.cancel()
         except Exception as e:
             agg['harness'].append((-1, 'pool timeout: %r' % (e,)))
             for f in futs:
@@ -404,8 +412,13 @@ def run_check(prop, spec, tier, verif_seed, workers=None):
     # --- triage -----------------------------------------------------------
     exit_code = 0
     by_sig = {}
+    spare = {}      # further recorded runs with the same signature, tried when the first does not reproduce
     for v in sorted(agg['violations'], key=lambda v: (v['sig'], len(v['choices']), v['index'])):
-        by_sig.setdefault(v['sig'], v)
+        if v['sig'] in by_sig:
+            if len(spare.setdefault(v['sig'], [])) < 4:
+                spare[v['sig']].append(v)
+        else:
+            by_sig[v['sig']] = v
     known_seen = []
     new_violations = []
     for sig, v in sorted(by_sig.items()):
@@ -415,6 +428,13 @@ def run_check(prop, spec, tier, verif_seed, workers=None):
             print('KNOWN-FINDING: property=%s %s [%s] (e.g. seed %d)' % (prop, k['text'], sig, v['seed']))
             continue
         choices, sim, nruns = shrink(prop, spec['scenario'], v['params'], v['gates'], v['choices'], sig)
+        for alt in spare.get(sig, ()):
+            if sim is not None:
+                break
+            # (a tree under test may carry state from one run of a worker to the next; a run that needed such
+            # state does not replay, another run with the same signature may)
+            v = alt
+            choices, sim, nruns = shrink(prop, spec['scenario'], v['params'], v['gates'], v['choices'], sig)
         if sim is None:
             # did not reproduce from its own choice list: the machinery is not deterministic here
             agg['harness'].append((v['index'], 'violation %s did not reproduce from its recorded choices' % sig))
